@@ -1,6 +1,7 @@
 package main
 
 import (
+	"strings"
 	"encoding/json"
 	"flag"
 	"fmt"
@@ -161,8 +162,19 @@ func replayMain(path string) int {
 			fmt.Fprintln(os.Stderr, "bad seat case:", err)
 			return 2
 		}
-		s := newSeatRun(v.Prop, []string{v.Prop}, sc.Max, rep, v.Seed, 0, caseRand(v.Seed, 0, 0))
-		runSeatHistory(s, parseSeatHistory(sc.Text))
+		// "join any seat" picks from a Go map: the recorded picks are in the history, and the replay is
+		// repeated until the manager makes the same picks (or, for histories recorded without them, a
+		// fixed number of times)
+		for try := 0; try < 20000; try++ {
+			s := newSeatRun(v.Prop, []string{v.Prop}, sc.Max, rep, v.Seed, 0, caseRand(v.Seed, 0, 0))
+			runSeatHistory(s, parseSeatHistory(sc.Text))
+			if len(rep.Viol) > 0 || (!s.diverged && strings.Contains(sc.Text, ">")) {
+				break
+			}
+			if !strings.Contains(sc.Text, "J-1") {
+				break
+			}
+		}
 	case "world":
 		var wc WorldCase
 		if err := json.Unmarshal(v.Case, &wc); err != nil {
@@ -181,6 +193,9 @@ func replayMain(path string) int {
 	}
 	for sig, vs := range rep.Viol {
 		fmt.Printf("  reproduced: %s\n    %s\n", sig, vs[0].Msg)
+		if c, err := json.Marshal(vs[0].Case); err == nil && v.Kind == "seats" {
+			fmt.Printf("    history as replayed: %s\n", c)
+		}
 	}
 	return 1
 }
